@@ -67,7 +67,7 @@ impl Check for C07 {
                 driver: if rng.chance(0.75) { Driver::Step } else { Driver::Eval },
             })
             .collect();
-        Scn { case, schedules, fuel: 3_000_000 }
+        Scn { case, schedules, fuel: 400_000 }
     }
 
     fn shrink(&self, scn: &Scn) -> Vec<Scn> {
